@@ -18,6 +18,7 @@ import (
 	"strings"
 	"sync"
 	"testing"
+	"time"
 
 	"pgregory.net/rapid"
 )
@@ -314,17 +315,40 @@ func RunWith[C any](t *testing.T, r *Recorder, gen func(*rapid.T) C, judge func(
 		completed = true
 		return
 	}
+	// the first cheap cases that held are judged once more at the very end of the process: a judge is a function of
+	// its case, so a case that held at the beginning must hold again after thousands of others (caches, pools and
+	// tables that the code under test fills in between must not change what it does with an early value)
+	var early []C
 	rapid.Check(t, func(rt *rapid.T) {
 		c := gen(rt)
 		b, err := json.Marshal(c)
 		if err != nil {
 			panic("case not serialisable: " + err.Error())
 		}
+		t0 := time.Now()
 		v := judgeGuard(judge, c)
+		if len(early) < 12 && !v.Failed() && !v.Skipped && time.Since(t0) < 150*time.Millisecond {
+			early = append(early, c)
+		}
 		if r.Observe(b, v) {
 			rt.Fatalf("VIOLATION sig=%s", v.Sig) // message must be deterministic or rapid refuses to shrink
 		}
 	})
+	if !t.Failed() {
+		for _, c := range early {
+			v := judgeGuard(judge, c)
+			if v.Failed() {
+				v.Sig = "held-at-first-fails-when-revisited/" + v.Sig
+				v.Msg = "this case held when it was judged at the beginning of the process and fails when judged again at its end, after all the others (replaying it alone will hold: the failure needs the history): " + v.Msg
+			}
+			v.Labels = append(v.Labels, "revisited-at-the-end")
+			b, _ := json.Marshal(c)
+			if r.Observe(b, v) {
+				t.Errorf("VIOLATION sig=%s %s", v.Sig, v.Msg)
+				break
+			}
+		}
+	}
 	completed = true
 }
 
